@@ -312,8 +312,14 @@ def _worker(world, prop, seed, tier, w, W, nruns, deadline, wfd, max_fail):
                 if len(agg["harness"]) < 5:
                     agg["harness"].append({"k": k, "variant": vi, "program": program,
                                            "msg": res["msg"]})
+                if str(res.get("msg", "")).startswith("timeout"):
+                    agg["timeouts"] = agg.get("timeouts", 0) + 1
             if len(agg["samples"]) < 2 and vi == 0 and res.get("nontrivial"):
                 agg["samples"].append(program)
+        if agg.get("timeouts", 0) >= 3:
+            # something hangs systematically: stop burning the budget, the batch is reported as HARNESS-ERROR anyway
+            agg["harness"].append({"k": k, "variant": 0, "msg": "worker gave up after 3 timeouts"})
+            break
         k += W
     agg["cover"] = sorted(agg["cover"])
     agg["nt_digests"] = sorted(agg["nt_digests"])
